@@ -11,6 +11,7 @@ import CatiiProofs.Sliced
 import CatiiProofs.Collapsed
 import CatiiProofs.SetUpdates
 import CatiiProofs.ShiftGenBridge
+import CatiiProofs.AppendGenBridge
 import CatiiProofs.ValidateGenBridge
 /-!
 # C07 — every operation preserves index well-formedness
@@ -61,6 +62,18 @@ tools/translate_shift.py) keeps a well-formed one- or two-axis index well-formed
 theorem generated_shift_common_keeps_wellformed (i : IIndex) (h : WF i) (hnd : i.ndim ≤ 2) (v : Int) :
     WF (Gen.shiftToGen i v) :=
   (shiftCommon_refines i h hnd (some v) _ (gen_shiftTo_eq i v h.arity hnd)).1
+
+/-- `append` as REGENERATED from the source on every run (`Gen.appendPreGen` + the re-encoding) preserves well-formedness -/
+theorem generated_append_keeps_wellformed {i other : IIndex} (ok : AppendOK i other) (hnd : i.ndim ≤ 2) (r : IIndex)
+    (hr : shiftCommon (Gen.appendPreGen i other) none = .ok r) : WF r := by
+  have hsame : other.shape.length = i.shape.length := ndim_eq_of_drop ok
+  rw [gen_appendPre_eq i other hnd hsame ok.wo.arity] at hr
+  have hr' : append i other = .ok r := by
+    unfold append
+    have : ¬ i.ndim > 2 := by omega
+    simp only [this, if_false]
+    exact hr
+  exact (append_refines ok hnd r hr').1
 
 /-- `from_array(values, counts, common, mapping)` returns a well-formed index on both construction paths -/
 theorem from_array_wellformed (a : Arr) (o : FromOpts) (idx : IIndex) (w : Bool) (harr : ArrOK a)
